@@ -63,8 +63,11 @@ TVerdict == /\ Is("verdict") /\ Validate(fmt)
             /\ DOMAIN Ev.verdicts = Asked(fmt)
             /\ \A a \in Asked(fmt) : verdict'[a] = Ev.verdicts[a]
             /\ l' = l + 1
+\* (the relations between formats hold for every text: the recorded answers still go through IPRelation)
 TSkip == /\ Is("verdict") /\ pc = "skip" /\ pc' = "done" /\ l' = l + 1
-         /\ UNCHANGED <<fmt, inst, corr, toks, verdict>>
+         /\ DOMAIN Ev.verdicts = Asked(fmt)
+         /\ verdict' = [a \in Asked(fmt) |-> Ev.verdicts[a]]
+         /\ UNCHANGED <<fmt, inst, corr, toks>>
 TraceNext == TRender \/ TVerdict \/ TSkip
 TraceSpec == TraceInit /\ [][TraceNext]_tvars
 HWM == IF l > TLCGet(1) THEN TLCSet(1, l) ELSE TRUE
